@@ -92,7 +92,15 @@ func c20Sequential(n int, maxLen int) Scenario { return c20SequentialTypes(n, ma
 // tv maps the model's entry types 1 and 2 to the values handed to the logger (any int
 // is a legal type; 0 selects everything in Filter)
 func c20SequentialTypes(n int, maxLen int, tv [3]int) Scenario {
+	return c20SequentialFull(n, maxLen, tv, 6)
+}
+
+// fullLen: all 4^fullLen beginnings are enumerated (large capacities: short beginnings, long runs)
+func c20SequentialFull(n int, maxLen int, tv [3]int, fullLen int) Scenario {
 	name := fmt.Sprintf("sequential capacity=%d sequences<=%d", n, maxLen)
+	if fullLen != 6 {
+		name += fmt.Sprintf(" beginnings=4^%d", fullLen)
+	}
 	if tv != [3]int{0, 1, 2} {
 		name += fmt.Sprintf(" entry-types=%d,%d", tv[1], tv[2])
 	}
@@ -116,7 +124,7 @@ func c20SequentialTypes(n int, maxLen int, tv [3]int) Scenario {
 		}
 		// the full 4^maxLen tree is too large for long sequences: all sequences over the 4 kinds up
 		// to length 6, longer ones continue with a fixed rotation (the ring position is what matters)
-		full := 6
+		full := fullLen
 		if maxLen < full {
 			full = maxLen
 		}
@@ -347,6 +355,15 @@ func c20Scenarios(tier string) []Scenario {
 		}
 	}
 	out = append(out, c20TwoLoggers(2, 2, 1), c20TwoLoggers(3, 5, 1))
+	// capacities beyond any small ring: around powers of two and in between
+	for _, n := range []int{65, 127, 128, 129, 200, 256, 257} {
+		out = append(out, c20SequentialFull(n, 2*n+n/2+3, [3]int{0, 1, 2}, 1))
+	}
+	if tier == "thorough" {
+		for _, n := range []int{300, 511, 513, 1000, 1025, 3000} {
+			out = append(out, c20SequentialFull(n, 2*n+n/2+3, [3]int{0, 1, 2}, 1))
+		}
+	}
 	// more entries than the logger's 16-slot queue
 	out = append(out, c20Concurrent(c20Params{N: 3, Producers: []int{20}, Filters: 2, P: 1}))
 	return out
